@@ -64,6 +64,18 @@ func runTSCase(k TSCase) (verdict string) {
 		if bt != t {
 			return fmt.Sprintf("ParseTimestamp(%q) = %v %+v", s, bt, bt)
 		}
+		if mp := ion.MustParseTimestamp(s); !mp.Equal(back) || mp.String() != back.String() {
+			return fmt.Sprintf("MustParseTimestamp(%q) = %v differs from ParseTimestamp = %v", s, mp, back)
+		}
+		if t.Prec == model.PSecond && t.FracDigits > 0 {
+			want := t.Nanos
+			for i := t.FracDigits; i < 9; i++ {
+				want /= 10
+			}
+			if got := back.TruncatedNanoseconds(); got != want {
+				return fmt.Sprintf("TruncatedNanoseconds() of %q = %d, the fraction digits read %d", s, got, want)
+			}
+		}
 		if !back.Equal(ts) && !(t.Prec == model.PSecond && t.FracDigits == 0) {
 			// (Second vs Nanosecond-with-0-digits are the same Ion value but different enum values)
 			return fmt.Sprintf("ParseTimestamp(String()) not Equal to the original for %q", s)
